@@ -107,7 +107,11 @@ def evaluate(case, r):
                         "although that level was never closed (C19_all_dispatched_partial)" % (sid, q, r["evq"], active)))
     # a signal discarded although _force_quit was never set
     if r["drop"] and not any(ev[1] == 21 for ev in trace):
-        out.append(("signal-dropped", "signals %s were discarded although force_quit() was never called" % r["drop"]))
+        out.append(("signal-dropped", "signals %s (sources %s) were discarded — enqueue_signal returned without putting them into any "
+                    "queue — although force_quit() was never called%s; the only discard the proved model allows is after reading "
+                    "_force_quit = True (C19_conservation's places, C19_all_dispatched_partial, C19_submission_ignores_run_loop)"
+                    % (r["drop"], [subs[x][3] for x in r["drop"] if x in subs],
+                       " (a submission fell between close_loop() and the return of its handler, _run_loop = False)" if in_gap(r) else "")))
     # per-thread order among equal priorities routed to the same queue
     disp_pos = {}
     for i, sid in enumerate(r["disp"]):
@@ -278,6 +282,18 @@ def routing_cases():
     return out
 
 
+def at_gap(progs, prefix, maxturns=30):
+    """Extend `prefix` by loop-thread turns until (by the model) the loop thread sits between close_loop() and the
+    return of its handler: its last performed accesses are the re-point (20) and the release (10)."""
+    cands = [prefix + [0] * n for n in range(maxturns)]
+    res = lib.model_run("conc", [[progs, c] for c in cands])
+    for c, m in zip(cands, res):
+        mine = [ev for ev in m[0] if ev[0] == 0]
+        if len(mine) >= 2 and mine[-1][1] == 10 and mine[-2][1] == 20:
+            return c
+    return None
+
+
 def gap_cases():
     """Submissions falling into the gap between close_loop() (which leaves _run_loop = False) and the return of the
     handler that called it (the closed level's _mainloop re-arms the flag).  Sources registered at the root level,
@@ -285,17 +301,22 @@ def gap_cases():
     out = []
     for src in ([5], []):
         progs = [[[2, 5], [3, 1, 0, []], [4], [1], [1], [1]], [[0, 2, 0, src], [0, 3, 0, src]], [[0, 4, 0, [5]]]]
-        for a in range(0, 18, 2):            # accesses of submitter 1 before the loop thread closes the level
-            for k in (2, 10, 16, 32):        # accesses of the submitters inside the gap
-                out.append(dict(progs=progs, sched=[0] * 23 + [1] * a + [0] * 7 + [1] * k + [2] * k + [0] + [1] * 40 + [2] * 20 + [0] * 6,
+        for a in (0, 1, 5, 12, 13, 15, 16, 20):     # accesses of submitter 1 before the loop thread closes the level
+            pre = at_gap(progs, [0] * 23 + [1] * a + [0] * 4 + [1] * (16 if 0 < a < 16 else 0))
+            if pre is None:
+                continue
+            for k in (1, 2, 10, 16, 32):         # accesses of the submitters inside the gap
+                out.append(dict(progs=progs, sched=pre + [1] * k + [2] * k + [0] + [1] * 40 + [2] * 20 + [0] * 6,
                                 note="gap src=%s a=%d k=%d" % (src, a, k)))
     # two nested levels, the inner one closed; sources at levels 0 and 1
     progs = [[[2, 5], [3, 1, 0, []], [2, 6], [3, 7, 0, []], [4], [1], [4], [1], [1], [1]],
              [[0, 2, 0, [6]], [0, 3, 0, [5]]], [[0, 4, 0, []]]]
+    pre = at_gap(progs, [0] * 46)
     for k in (3, 12, 30):
         for j in (0, 5, 14):
-            out.append(dict(progs=progs, sched=[0] * 46 + [0] * 7 + [1] * k + [2] * j + [0] * 2 + [1] * 40 + [2] * 30 + [0] * 14,
-                            note="gap, two levels k=%d j=%d" % (k, j)))
+            if pre is not None:
+                out.append(dict(progs=progs, sched=pre + [1] * k + [2] * j + [0] * 2 + [1] * 40 + [2] * 30 + [0] * 14,
+                                note="gap, two levels k=%d j=%d" % (k, j)))
     return out
 
 
@@ -312,7 +333,10 @@ SMALL_CONFIGS = [
     # (progs, prefix schedule, name, in quick tier)   exhaustive: every stutter-free interleaving after the prefix
     ([[[1], [1]], [[0, 1, 0, []], [0, 2, 0, []]]], [], "2 signals of one thread, loop dispatches twice", True),
     ([[[2, 1], [1], [1]], [[0, 1, 0, [1]]], [[0, 2, 0, [1]]]], [0, 0, 0], "2 submitters x 1 registered signal, loop dispatches twice", True),
-    ([[[3, 1, 0, []], [4]], [[0, 2, 0, []]]], [0] * 20, "level open; loop {close + handler return} vs 1 unregistered submission (F10 scope, gap)", True),
+    ([[[3, 1, 0, []], [4]], [[0, 2, 0, []]]], [0] * 20 + [1] * 9,
+     "level open, submitter inside the routing loop; loop {close + handler return} vs the rest of the submission (F10 scope, gap)", True),
+    ([[[2, 5], [3, 1, 0, []], [4], [1]], [[0, 2, 0, [5]]]], [0] * 28,
+     "close_loop past its drain; {pop, re-point, release, handler return, dispatch} vs 1 submission registered at the root (gap)", True),
     ([[[3, 1, 0, []], [1], [4]], [[0, 2, 0, []]]], [0] * 20, "level open; loop {dispatch, close} vs 1 unregistered submission (F10 scope)", False),
     ([[[1], [1]], [[0, 1, 0, []]], [[0, 2, 0, []]]], [], "2 submitters x 1 unregistered signal, loop dispatches twice", False),
     ([[[2, 1], [3, 9, 0, []], [4], [1]], [[0, 1, 0, [1]], [0, 2, 0, [1]]]], [0] * 23,
